@@ -620,7 +620,7 @@ def run(ctx):
     for method, xh in itertools.product(("MNDO", "AM1", "PM3"), (False, True)):
         par = (sp.Symbol("alpha_tuple"), sp.Symbol("K"), sp.Symbol("L"), sp.Symbol("M")) if method != "MNDO" else (sp.Symbol("alpha_tuple"),)
         envE = {"rij": r / a0s, "a0": a0s, "gam": gam, "parameters": par, "const.tore": sp.Symbol("tore"), "const.atomic_num": sp.Symbol("an")}
-        se = SymExec(envE, {"XH": xh}, {"method": method}, dict(idx, **{"parameters[0]": sp.Symbol("alpha")}), funcs)
+        se = SymExec(envE, {"XH": xh}, {**__import__("sa.symexec", fromlist=["literal_globals"]).literal_globals(repo.mod("seqm/seqm_functions/energy.py")), "method": method}, dict(idx, **{"parameters[0]": sp.Symbol("alpha")}), funcs)
         se.env["alpha"] = sp.Symbol("alpha")
         try:
             E = se.run(list(pne.body))
